@@ -23,6 +23,11 @@ Grammar (everything else is refused)
                < <= > >= on numbers / lengths, not, and/or/conditional expressions without effects inside,
                len min max abs, repeat(x, n), random.random() random.gauss(a, b) math.exp(a) math.sqrt(a),
                isinstance(x, Sequence) as (possibly negated) test of an `if`, which narrows the type of x.
+Comparisons    `a > b` is `b < a` and `a >= b` is `b <= a` (exact in IEEE arithmetic, NaN included).  One normal form on top
+               of that: when one operand is the unmodified result of random.random() (a name bound directly to the call,
+               or the call itself) and the other a literal constant, the order is total (a draw is never NaN, 0 <= u < 1), so
+               every spelling is brought to `u < c` / `u <= c`, negated where needed: `u > c` = `not u <= c`, `c <= u` =
+               `not u < c`, ...  (trusted: CPython's random.random() returns a float in [0, 1)).
 Types          num (T) | nat (len, range indices, sizes) | bool | list (a mutable list parameter / .strategy) |
                bnd (scalar-or-sequence parameter) | seq (immutable sequence) | iter (one-shot iterable).
 A nat reaching a float operation is converted by o_ofnat (Python: int -> float, exact below 2**53).
@@ -86,10 +91,12 @@ class FnTr:
         self.counter = counter if counter is not None else [0]
         self.in_loop = in_loop
         self.cont = None                  # inside a loop: tr -> text of `continue`
+        self.draws = set()                # coq names that hold the unmodified result of random.random()
 
     def sub(self, in_loop=None):
         t = FnTr(self.env, self.listparams, self.counter, self.in_loop if in_loop is None else in_loop)
         t.cont = self.cont
+        t.draws = set(self.draws)
         return t
 
     def temp(self):
@@ -180,6 +187,17 @@ class FnTr:
             if ta in ("num", "nat") and tb in ("num", "nat"):
                 ca = "(ofnat %s)" % a if ta == "nat" else a
                 cb = "(ofnat %s)" % b if tb == "nat" else b
+                # a draw of random.random() (never NaN: 0 <= u < 1) against a literal constant: the order is total, so
+                # every spelling is brought to the form the draw on the left, `<` or `<=`, possibly negated
+                # (d > c  is  not d <= c;  c <= d  is  not d < c; ...)
+                lconst = isinstance(e.left, ast.Constant)
+                rconst = isinstance(e.comparators[0], ast.Constant)
+                if a in self.draws and rconst:
+                    form2 = {ast.Lt: "(ltb %s %s)", ast.LtE: "(leb %s %s)", ast.Gt: "(negb (leb %s %s))", ast.GtE: "(negb (ltb %s %s))"}
+                    return form2[type(op)] % (a, cb), "bool"
+                if b in self.draws and lconst:
+                    form2 = {ast.Gt: "(ltb %s %s)", ast.GtE: "(leb %s %s)", ast.Lt: "(negb (leb %s %s))", ast.LtE: "(negb (ltb %s %s))"}
+                    return form2[type(op)] % (b, ca), "bool"
                 swap = isinstance(op, (ast.Gt, ast.GtE))
                 return "(%s %s %s)" % (form[0], cb if swap else ca, ca if swap else cb), "bool"
             refuse(e, "comparison of %s with %s" % (ta, tb))
@@ -258,7 +276,9 @@ class FnTr:
             mod, meth = f.value.id, f.attr
             if mod == "random" and meth == "random":
                 self.plain_args(e, 0)
-                return self.effect(binds, "draw_random"), "num"
+                x = self.effect(binds, "draw_random")
+                self.draws.add(x)
+                return x, "num"
             if mod == "random" and meth == "gauss":
                 self.plain_args(e, 2)
                 a = self.num(e.args[0], binds)
@@ -367,6 +387,7 @@ class FnTr:
         if t not in ("num", "nat", "bool", "iter", "seq"):
             refuse(node, "local of type %s" % t)
         self.env[name] = t
+        self.draws.discard(name)
 
     def assign(self, s):
         """Assign / AugAssign -> text (ending in newline) of binds and lets; updates env"""
@@ -416,7 +437,10 @@ class FnTr:
         return self.chain(binds) + self.store_one(s, t, v, vt)
 
     def bind_name(self, s, name, v, vt, binds):
+        is_draw = v in self.draws
         self.set_local(s, name, vt)
+        if is_draw:
+            self.draws.add(name)          # x = random.random()  (also x = y for a draw y)
         if binds and binds[-1][0] == v:
             return self.chain(binds[:-1]) + "%s <- %s ;;\n" % (name, binds[-1][1])
         return self.chain(binds) + "let %s := %s in\n" % (name, v)
@@ -593,6 +617,7 @@ class FnTr:
                 continue
             self.local(s, v)
             self.env[v] = t
+            self.draws.discard(v)
         txt = render(ta, tb_)
         for k in range(len(envs)):
             txt = txt.replace("@@JOIN%d@@" % k, "ret %s" % self.tup(vs))
@@ -656,6 +681,8 @@ class FnTr:
         for v in carried:
             if self.env[v] not in ("list", "num", "nat", "bool"):
                 refuse(s, "loop-carried variable %s of type %s" % (v, self.env[v]))
+        for v in carried:
+            self.draws.discard(v)         # its value at the top of an iteration may come from the previous one
         body = self.sub(in_loop=True)
         body.cont = lambda tr: "ret %s" % self.tup(carried)
         head = ""
